@@ -215,11 +215,11 @@ pub fn worker(args: &[String]) -> i32 {
     if res.is_ok() {
         let (total, depth) = match (which, tier) {
             (Which::C14, Tier::Quick) => (16_000usize, 12usize),
-            (Which::C14, Tier::Thorough) => (300_000, 16),
+            (Which::C14, Tier::Thorough) => (700_000, 16),
             (Which::C15, Tier::Quick) => (40_000, 12),
-            (Which::C15, Tier::Thorough) => (1_000_000, 20),
+            (Which::C15, Tier::Thorough) => (2_000_000, 20),
             (Which::C19, Tier::Quick) => (6000, 10),
-            (Which::C19, Tier::Thorough) => (100_000, 12),
+            (Which::C19, Tier::Thorough) => (300_000, 12),
         };
         let per = (total / nshards).max(1) as u32;
         res = run_prop(which.id(), "protected-history", seed.wrapping_mul(31337).wrapping_add(shard as u64), per, history_strat(which, depth), &mut ev, |h, ev| {
